@@ -67,8 +67,33 @@ def owner_ctx(repo, owner: str, tier: str, seed: int):
     return _cache[key]
 
 
+# enums whose members the session-layer rules tell apart BY NAME (typestate of the connection, kind of a message)
+NAME_ENUMS = ("ConnectionState", "ConnectionRole", "FMsg")
+NAME_SENSITIVE = ("C04", "C05", "C06", "C09", "C11", "C12", "C14")
+
+
+def enum_alias_guard(pid: str, repo) -> None:
+    """Two members of an Enum with equal values are one member at run time (the later name is an alias).  A typestate analysis that keeps
+    `ConnectionState.A` and `.B` apart by name is wrong about such a program in either direction, so it does not decide it."""
+    import ast
+    if pid not in NAME_SENSITIVE:
+        return
+    for cname in NAME_ENUMS:
+        c = repo.classes.get(cname)
+        if c is None:
+            continue
+        first = {}
+        for st in c.body:
+            if isinstance(st, ast.Assign) and len(st.targets) == 1 and isinstance(st.targets[0], ast.Name) and isinstance(st.value, ast.Constant):
+                if st.value.value in first:
+                    raise core.AnalysisError(f"{cname}.{st.targets[0].id} and {cname}.{first[st.value.value]} have the same value {st.value.value!r}: at run time "
+                                             "they are one member (an alias), the rules of this property distinguish them by name - not decided")
+                first[st.value.value] = st.targets[0].id
+
+
 def run_property(pid: str, ctx) -> None:
     """The property's own rule module, then the clauses it borrows."""
+    enum_alias_guard(pid, ctx.repo)
     importlib.import_module(f"rules.{pid.lower()}").run(ctx)
     borrow(pid, ctx)
 
